@@ -9,7 +9,7 @@ CLAIM = {
              "the mesh is transposed to (y, x) by name; (R3) every visited location draws exactly one line on every path except all-null slices, which are skipped before any artist is created; (R4) panels are axs[i, j] with i from the row mapping and j "
              "from the column mapping, created as subplots(sizes[row], sizes[col]) and titled from domains[col][j] / domains[row][i]; (R5) for each mapped property style value and legend key use one index; (R6) the input dataset is never modified; "
              "(R7) init_mapped_dim records a dimension's coordinates only after every re-indexing of the dataset along it, so isel positions and domains / values positions denote the same coordinate; (R8) mask polarity under join_across_missing; "
-             "(R9) histogram density is delegated to np.histogram(bins=self.bins, density=self.bins_density); (R10) without a palette all heat-map panels and the legend share one colour scale; (R11) the automatic hues exclude the sweep's end point whenever the default sweep is a whole number of turns (otherwise the first and last hue coordinate share their colours). Not decided: everything about the drawn values."),
+             "(R9) histogram density is delegated to np.histogram(bins=self.bins, density=self.bins_density); (R10) without a palette all heat-map panels and the legend share one colour scale; (R11) the automatic hues exclude the sweep's end point whenever the default sweep is a whole number of turns (otherwise the first and last hue coordinate share their colours). (R12) in heat-map mode with unmapped dimensions every aggregate value (None, True, a name, a list) is widened to all unmapped dimensions. Not decided: everything about the drawn values."),
     "note": "Trusted base: matplotlib slot table; xarray isel / sel / dropna semantics; np.histogram density normalisation for uneven bins.",
     "technique": "static analysis: role-provenance rules at draw sinks, CFG path rules over the location loop, ordering rule on dataset re-indexing vs coordinate capture, alias/taint no-mutation rule",
 }
